@@ -19,7 +19,7 @@
     NOT modelled (decided by other properties, the harness keeps them satisfied): funds, holds,
     fees, permissions, required attributes, whether the market exists / accepts orders.  An
     operation's [wf_*] check stands for the message's ValidateBasic + Validate (non-zero market id,
-    valid address = 1..255 bytes, valid non-empty denom, positive amount, external id <= 100 bytes).
+    valid address = 1..255 bytes, valid denom ([denom_ok]), positive amount, external id <= 100 bytes).
     uint64 arithmetic is mod 2^64 ([nextOrderID] wraps).  A failing operation returns the OLD
     state (transaction rollback).  No proofs in this file. *)
 From Coq Require Import ZArith NArith List Bool.
@@ -38,10 +38,18 @@ Record order := {
   o_ext : bytes          (* external id, [] = none *)
 }.
 
+(** Accounts are identified by their address BYTES ([p_source], [p_target]: the store keys are built
+    from the decoded bytes).  The payment record itself stores the bech32 STRINGS the message
+    carried; bech32 has exactly two spellings of an address, all lower case (canonical,
+    [AccAddress.String()]) and ALL UPPER CASE (mixed case does not decode), both accepted by
+    Payment.Validate.  [p_src_up] / [p_tgt_up] say which spelling the stored string has
+    (false = lower case); two address strings are equal iff bytes and spelling agree. *)
 Record payment := {
   p_source : bytes;
+  p_src_up : bool;       (* stored Source string is the upper-case spelling *)
   p_ext : bytes;         (* external id, may be empty *)
   p_target : bytes;      (* [] = no target *)
+  p_tgt_up : bool;       (* stored Target string is the upper-case spelling (false when no target) *)
   p_amount : Z           (* source amount (opaque) *)
 }.
 
@@ -135,9 +143,21 @@ Definition delete_and_deindex (s : st) (id : N) (o : order) : st :=
 Definition addr_ok (a : bytes) : bool := (Nat.leb 1 (length a)) && (Nat.leb (length a) 255).
 Definition ext_ok (e : bytes) : bool := Nat.leb (length e) 100.
 
+(** sdk.ValidateDenom with this chain's coin denom regex (app.SdkCoinDenomRegex =
+    pioconfig.DefaultReDnmString): [a-zA-Z][a-zA-Z0-9/\-\.]{2,127} -- a letter, then 2..127
+    letters, digits, '/', '-' or '.'; case sensitive, ':' and '_' are NOT legal here. *)
+Definition is_letter (c : N) : bool := ((65 <=? c) && (c <=? 90)) || ((97 <=? c) && (c <=? 122)).
+Definition is_dchar (c : N) : bool :=
+  is_letter c || ((48 <=? c) && (c <=? 57)) || (c =? 47) || (c =? 45) || (c =? 46).
+Definition denom_ok (d : bytes) : bool :=
+  match d with
+  | c :: r => is_letter c && Nat.leb 2 (length r) && Nat.leb (length r) 127 && forallb is_dchar r
+  | [] => false
+  end.
+
 Definition wf_order (o : order) : bool :=
   negb (o_market o =? 0) && (o_market o <? two32) && addr_ok (o_owner o) &&
-  negb (Nat.eqb (length (o_asset o)) 0) && Z.ltb 0 (o_amount o) && ext_ok (o_ext o).
+  denom_ok (o_asset o) && Z.ltb 0 (o_amount o) && ext_ok (o_ext o).
 
 (** CreateAskOrder / CreateBidOrder (store part). *)
 Definition create_order (s : st) (o : order) : option (st * N) :=
@@ -246,11 +266,18 @@ Definition get_payment (s : st) (src e : bytes) : option payment :=
   | _ => None
   end.
 
+(** The empty string has one spelling: a payment term without target carries [p_tgt_up = false]. *)
 Definition wf_payment (p : payment) : bool :=
   addr_ok (p_source p) && (Nat.eqb (length (p_target p)) 0 || addr_ok (p_target p)) &&
-  ext_ok (p_ext p) && Z.ltb 0 (p_amount p).
+  ext_ok (p_ext p) && Z.ltb 0 (p_amount p) &&
+  (negb (Nat.eqb (length (p_target p)) 0) || negb (p_tgt_up p)).
 
-(** setPaymentInStore *)
+(** [existing.Target == payment.Target] as Go compares them: STRINGS (bytes and spelling). *)
+Definition tgt_str_eqb (t1 : bytes) (u1 : bool) (t2 : bytes) (u2 : bool) : bool :=
+  bytes_eqb t1 t2 && (Nat.eqb (length t1) 0 || Bool.eqb u1 u2).
+
+(** setPaymentInStore: the record first, then the OLD index entry is deleted, then the new one
+    written (in this order: when both keys coincide the entry must survive). *)
 Definition set_payment_in_store (s : st) (p : payment) : st :=
   let pkey := k_pay (p_source p) (p_ext p) in
   let ikey := match p_target p with
@@ -262,7 +289,10 @@ Definition set_payment_in_store (s : st) (p : payment) : st :=
     | Some ex =>
         match p_target ex with
         | [] => (ikey, None)
-        | t => if bytes_eqb t (p_target p) then (None, None)
+        | t => (* case payment.Target: the STRINGS are equal; default: the old index key is
+                  built from the stored target's BYTES -- it can coincide with the new key when
+                  only the spelling differs *)
+               if tgt_str_eqb t (p_tgt_up ex) (p_target p) (p_tgt_up p) then (None, None)
                else (ikey, Some (k_tgt t (p_source p) (p_ext p)))
         end
     | None => (ikey, None)
@@ -285,15 +315,31 @@ Definition delete_payment (s : st) (p : payment) : st :=
   | t => del s1 (k_tgt t (p_source p) (p_ext p))
   end.
 
-(** RejectPayment, and the store part of AcceptPayment when the submitted payment equals the
-    stored one: the payment must exist, have a target, and that target must be [t]. *)
+(** AcceptPayment (store part, the submitted amounts equal the stored ones): the payment must
+    exist and have a target; the submitted Source and Target STRINGS must equal the stored ones
+    (bytes and spelling). *)
+Definition accept_payment (s : st) (t : bytes) (tup : bool) (src : bytes) (sup : bool) (e : bytes)
+  : option st :=
+  if negb (addr_ok t && addr_ok src && ext_ok e) then None else
+  match get_payment s src e with
+  | None => None
+  | Some p =>
+      if negb (Bool.eqb (p_src_up p) sup) then None else
+      if negb (tgt_str_eqb (p_target p) (p_tgt_up p) t tup) then None else
+      Some (delete_payment s p)
+  end.
+
+(** RejectPayment: the message's addresses are parsed to bytes (their spelling is irrelevant);
+    the payment must exist, have a target, and the STORED target string must equal
+    [target.String()], the canonical lower-case spelling of [t]: a payment whose target was
+    stored in upper case cannot be rejected one by one. *)
 Definition take_payment (s : st) (t src e : bytes) : option st :=
   if negb (addr_ok t && addr_ok src && ext_ok e) then None else
   match get_payment s src e with
   | None => None
   | Some p =>
       if Nat.eqb (length (p_target p)) 0 then None else
-      if negb (bytes_eqb (p_target p) t) then None else
+      if negb (tgt_str_eqb (p_target p) (p_tgt_up p) t false) then None else
       Some (delete_payment s p)
   end.
 
@@ -328,23 +374,37 @@ Definition payments_for_target_source (s : st) (t src : bytes) : list payment :=
   flat_map (fun kv => match get_payment s src (fst kv) with Some p => [p] | None => [] end)
            (pstore s (p_tgt_src t src)).
 
-(** RejectPayments: each (distinct) source must have at least one payment for the target. *)
-Definition reject_payments (s : st) (t : bytes) (srcs : list bytes) : option st :=
+Fixpoint nodup_spelled (l : list (bytes * bool)) : bool :=
+  match l with
+  | [] => true
+  | x :: r => negb (existsb (fun y => bytes_eqb (fst x) (fst y) && Bool.eqb (snd x) (snd y)) r)
+              && nodup_spelled r
+  end.
+
+(** RejectPayments: the sources come as strings ((bytes, upper-case?) pairs); ValidateBasic rejects
+    duplicate STRINGS, the keeper skips duplicate BYTES; each distinct source must have at least
+    one payment for the target (found through the target index). *)
+Definition reject_payments (s : st) (t : bytes) (ssrcs : list (bytes * bool)) : option st :=
+  let srcs := map fst ssrcs in
   if negb (addr_ok t) || Nat.eqb (length srcs) 0 || negb (forallb addr_ok srcs)
-     || negb (nodup_bytes srcs) then None else
+     || negb (nodup_spelled ssrcs) then None else
   let per := map (fun src => payments_for_target_source s t src) (dedup_bytes srcs) in
   if existsb (fun l => Nat.eqb (length l) 0) per then None else
   Some (fold_left delete_payment (concat per) s).
 
-(** UpdatePaymentTarget ([nt = []] removes the target). *)
+(** UpdatePaymentTarget ([nt = []] removes the target).  The keeper gets the parsed address and
+    compares the stored Target STRING with [newTarget.String()] (lower case): naming the account of
+    a target stored in upper case is NOT "already has target"; the record is rewritten with the
+    lower-case string and old and new index key coincide. *)
 Definition retarget_payment (s : st) (src e nt : bytes) : option st :=
   if negb (addr_ok src && ext_ok e && (Nat.eqb (length nt) 0 || addr_ok nt)) then None else
   match get_payment s src e with
   | None => None
   | Some p =>
-      if bytes_eqb (p_target p) nt then None else
+      if tgt_str_eqb (p_target p) (p_tgt_up p) nt false then None else
       Some (set_payment_in_store s
-              {| p_source := p_source p; p_ext := p_ext p; p_target := nt; p_amount := p_amount p |})
+              {| p_source := p_source p; p_src_up := p_src_up p; p_ext := p_ext p;
+                 p_target := nt; p_tgt_up := false; p_amount := p_amount p |})
   end.
 
 (** ---- the stateful core ---- *)
@@ -355,9 +415,10 @@ Inductive op :=
 | OFill (full : list N) (part : option (N * Z))
 | OCloseMarket (m : N)
 | OPayCreate (p : payment)
+| OPayAccept (t : bytes) (tup : bool) (src : bytes) (sup : bool) (e : bytes)
 | OPayTake (t src e : bytes)
 | OPayCancel (src : bytes) (es : list bytes)
-| OPayRejectAll (t : bytes) (srcs : list bytes)
+| OPayRejectAll (t : bytes) (srcs : list (bytes * bool))
 | OPayRetarget (src e nt : bytes).
 
 Definition init : st := [].
@@ -372,6 +433,7 @@ Definition step (s : st) (o : op) : st * bool :=
   | OFill full part => lift (fill_orders s full part)
   | OCloseMarket m => (close_market s m, true)
   | OPayCreate p => lift (create_payment s p)
+  | OPayAccept t tup src sup e => lift (accept_payment s t tup src sup e)
   | OPayTake t src e => lift (take_payment s t src e)
   | OPayCancel src es => lift (cancel_payments s src es)
   | OPayRejectAll t srcs => lift (reject_payments s t srcs)
